@@ -90,21 +90,6 @@ def typeMismatch (x : Val) (expected : Ty) : Prop := ¬ (checkType x expected = 
 instance (x : Val) (expected : Ty) : Decidable (typeMismatch x expected) := by
   unfold typeMismatch; exact inferInstance
 
-theorem checkType_iff (x : Val) (e : Ty) : checkType x e = true ↔ x.ty = e := by
-  unfold checkType checkTypeWith
-  cases e with
-  | simple t => cases hx : x.ty <;> simp
-  | agg k b =>
-    cases hx : x.ty with
-    | simple t => simp
-    | agg k' b' =>
-      by_cases hk : k' = k
-      · simp [hk, baseTypesMatch, elementBaseCmp]
-      · simp [hk]
-
-theorem typeMismatch_iff (x : Val) (e : Ty) : typeMismatch x e ↔ x.ty ≠ e := by
-  unfold typeMismatch; rw [checkType_iff]
-
 /-! ### Python list primitives -/
 
 /-- `lst[k]`: the position Python accesses, `none` = `IndexError` -/
@@ -311,8 +296,11 @@ def PSet.new (lo : Int) (hi : Option Int) (base : Ty) : Except Exc PSet :=
   | some e => .error e
   | none => .ok { lo, hi, base, cells := [] }
 
-/-- `SET.add` (note: when the set is full and the value is present, there is no type check) -/
-def PSet.add (s : PSet) (x : Val) : PSet × R :=
+/-- `SET.add` with the membership shortcut of a full set taken *before* the type check (the code before fixes/C19-6).
+`∈` is python's `in`: equality crosses EXPRESS types (`INTEGER(1) == REAL(1.0) == True`), which this model's structural
+equality on `Val` does not show — the branch is kept only so that the model follows such a source (`setAddChecksTypeFirst
+= false`), where the theorems no longer build and the oracle supplies the replay. -/
+def PSet.addMembershipFirst (s : PSet) (x : Val) : PSet × R :=
   match s.hi with
   | none =>
     if typeMismatch x s.base then (s, .raised .type) else ({ s with cells := pySetAdd s.cells x }, .ok)
@@ -321,6 +309,21 @@ def PSet.add (s : PSet) (x : Val) : PSet × R :=
       (if ¬ (x ∈ s.cells) then (s, .raised .assertion) else (s, .ok))
     else if typeMismatch x s.base then (s, .raised .type)
     else ({ s with cells := pySetAdd s.cells x }, .ok)
+
+/-- `SET.add`: `check_type(value, self.get_type())` first, then the capacity test (a value the full set already holds
+leaves it unchanged), then `set.add` -/
+def PSet.addTypeCheckFirst (s : PSet) (x : Val) : PSet × R :=
+  if typeMismatch x s.base then (s, .raised .type)
+  else match s.hi with
+    | none => ({ s with cells := pySetAdd s.cells x }, .ok)
+    | some h =>
+      if fullTest setFullGe s.cells.length (setFullAt s.lo h) then
+        (if ¬ (x ∈ s.cells) then (s, .raised .assertion) else (s, .ok))
+      else ({ s with cells := pySetAdd s.cells x }, .ok)
+
+/-- `SET.add`, in the statement order the source has (`setAddChecksTypeFirst`, regenerated) -/
+def PSet.add (s : PSet) (x : Val) : PSet × R :=
+  if setAddChecksTypeFirst then s.addTypeCheckFirst x else s.addMembershipFirst x
 
 def PSet.step (s : PSet) : Op → PSet × R
   | .add x => s.add x
